@@ -257,6 +257,11 @@ fn pipeline(t: &mut Tape, ctx: &mut Ctx) -> CheckResult {
                 let c = Arrow::compose(&l, &tw).ok_or_else(|| ctx.fail("compose-defined", "lax _ ; twist undefined although the types match"))?;
                 let c = &id | &c;
                 from_lax(&c).map_err(|e| ctx.fail("output-well-formed", format!("lax id | (_ ; twist): {e}")))?;
+                // lax dagger swaps the type; applied twice it is the identity
+                let dg = c.dagger();
+                from_lax(&dg).map_err(|e| ctx.fail("output-well-formed", format!("lax dagger: {e}")))?;
+                ensure!(ctx, Arrow::source(&dg) == Arrow::target(&c) && Arrow::target(&dg) == Arrow::source(&c), "output-type", "lax dagger has type {:?} -> {:?} for an arrow {:?} -> {:?}", Arrow::source(&dg), Arrow::target(&dg), Arrow::source(&c), Arrow::target(&c));
+                ensure!(ctx, dg.dagger() == c, "output-type", "lax dagger applied twice is not the identity");
                 cur = c.to_strict();
                 a = c0.iter().copied().chain(a).collect();
                 b = c0.iter().copied().chain(swapped).collect();
